@@ -546,7 +546,7 @@ func r02c(c *core.Ctx) {
 	for _, hf := range helperReach(ur, 1) {
 		for _, call := range core.Calls(hf) {
 			callee := core.StaticCallee(call)
-			if callee == nil || !strings.HasPrefix(callee.Name(), "New") || callee.Signature.Params().Len() != 0 {
+			if callee == nil || !strings.HasPrefix(core.CanonName(callee), "New") || callee.Signature.Params().Len() != 0 {
 				continue
 			}
 			var ks []int64
@@ -569,10 +569,10 @@ func r02c(c *core.Ctx) {
 				}
 			}
 			if len(ks) == 0 {
-				def = callee.Name()
+				def = core.CanonName(callee)
 			}
 			for _, k := range ks {
-				ctor[k] = callee.Name()
+				ctor[k] = core.CanonName(callee)
 			}
 		}
 	}
